@@ -6,8 +6,8 @@ import lib
 
 MANIFEST = {
  "category": "proof",
- "text": "Translation validation with a validator proved sound in Coq, plus a reference implementation proved correct for ALL programs. K/Refactor.v defines the resolved call tree of the top-level call (every call statement paired with the definition its DecId resolves to, recursively), the reference edits on the compiled Ast (rename_ast: callable names, call ids per pipeline, input and output names in declarations, DecIds, bindings, returns, stage retains, and inside every expression of bindings / modifiers / returns / retains / wildcard sources, with struct projections kept; restrict_ast: removed inputs, outputs and calls with the bindings that supplied or returned them) and the renaming Go chooses (an affected call keeps or gets an alias when it is aliased already or the new name is a call id of the pipeline). Theorems, no size bound: C19_rename_denote (for every program and every renaming that keeps callable names distinct, the call tree of the renamed program is the renamed call tree), C19_restrict_denote, C19_same_up_to_sound (validator accepts => call tree after = call tree before with the identifiers renamed and the removed elements dropped), C19_check_removal_sound (additionally nothing that survives referred to a removed element), C19_alias_insertion_preserves / C19_rename_tree_ids (qualified names unchanged when every call keeps its id; otherwise renamed per pipeline), C19_roundtrip_sound. Tie on every run: generated compiling file sets (1-3 files tied by @include) x every applicable edit on every callable and parameter (fresh names, names colliding with call aliases, names colliding with a parameter of the other direction, wildcard bindings from self and from calls, struct projections, disabled modifiers, retains, mapped calls, the same callable called twice): the edit is performed exactly as cmd/mro/edit does, the result recompiled, the compiled Asts before/after dumped from martian's own compiler; the extracted validator must accept every pair the implementation-side oracle accepts (for renames this is full function correspondence: Go's result equals the proved reference result), a kernel vm_compute sample cross-checks the extraction, and the oracle reads the property on the implementation (edited files compile; MakeCallGraph JSON equal up to the renaming / with removed elements dropped; X->Y->X restores the call graph).",
- "note": "Trusted: Coq kernel; extraction (cross-checked in-kernel on a sample); astdump; martian's parser/compiler/formatter produce the Asts. The denotation keeps references symbolic (renamed consistently in the scope of the enclosing pipeline); the type-directed resolution of references done by MakeCallGraph is compared on the implementation side only. C19_rename_involutive_partial / C19_rename_param_involutive_partial are identifier-level; the lift to whole programs is validated per dumped pair (check_roundtrip), not proved. remove-output of an output that is still consumed is outside the property (documented to bind null) and only exercised for crashes. Known findings (recorded, narrow classes): parameters bound by name through wildcard bindings are not followed by rename-input / rename-output; a removed input that a map call split over leaves the map call with nothing to split.",
+ "text": "Translation validation with a validator proved sound in Coq, plus a reference implementation proved correct for ALL programs. K/Refactor.v defines the resolved call tree of the top-level call (every call statement paired with the definition its DecId resolves to, recursively), the reference edits on the compiled Ast (rename_ast: callable names, call ids per pipeline, input and output names in declarations, DecIds, bindings, returns, stage retains, and inside every expression of bindings / modifiers / returns / retains / wildcard sources, with struct projections kept; restrict_ast: removed inputs, outputs and calls with the bindings that supplied or returned them) and the renaming Go chooses (an affected call keeps or gets an alias when it is aliased already or the new name is a call id of the pipeline). Theorems, no size bound: C19_rename_denote (for every program and every renaming that keeps callable names distinct, the call tree of the renamed program is the renamed call tree), C19_restrict_denote, C19_same_up_to_sound (validator accepts => call tree after = call tree before with the identifiers renamed and the removed elements dropped), C19_check_removal_sound (additionally nothing that survives referred to a removed element), C19_alias_insertion_preserves / C19_rename_tree_ids (qualified names unchanged when every call keeps its id; otherwise renamed per pipeline), C19_roundtrip_sound, C19_check_combo_sound / C19_check_combo_removal_sound (several edits in one request: the composed renaming, then the restriction). Tie on every run: generated compiling file sets (1-3 files tied by @include) x every applicable edit on every callable and parameter (fresh names, names colliding with call aliases, names colliding with a parameter of the other direction, wildcard bindings from self and from calls, struct projections, disabled modifiers, retains, mapped calls, the same callable called twice): the edit is performed exactly as cmd/mro/edit does, the result recompiled, the compiled Asts before/after dumped from martian's own compiler; the extracted validator must accept every pair the implementation-side oracle accepts (for renames this is full function correspondence: Go's result equals the proved reference result), a kernel vm_compute sample cross-checks the extraction, and the oracle reads the property on the implementation (edited files compile; MakeCallGraph JSON equal up to the renaming / with removed elements dropped; X->Y->X restores the call graph).",
+ "note": "Trusted: Coq kernel; extraction (cross-checked in-kernel on a sample); astdump; martian's parser/compiler/formatter produce the Asts. The denotation keeps references symbolic (renamed consistently in the scope of the enclosing pipeline); the type-directed resolution of references done by MakeCallGraph is compared on the implementation side only. C19_rename_involutive_partial / C19_rename_param_involutive_partial are identifier-level; the lift to whole programs is validated per dumped pair (check_roundtrip), not proved. remove-output of an output that is still consumed is outside the property (documented to bind null) and only exercised for crashes. Known findings (recorded, narrow classes): parameters bound by name through wildcard bindings are not followed by rename-input / rename-output; a removed input that a map call split over leaves the map call with nothing to split; in a combined request an edit is not replayed when a later part renames the pipeline name / call id / binding id it uses as lookup key.",
  "technique": "Coq proof (induction on resolution fuel, injectivity of the renaming on callable names, nested induction on expressions for decidable equality) + translation validation of every dumped (before, after) Ast pair + function correspondence with the reference edits + call-graph oracle on the implementation",
 }
 
@@ -56,6 +56,12 @@ def check(ctx, args):
 
     def describe(i):
         h = heads[i]
+        if h[2] == "combo":
+            parts = []
+            for part in lib_u(h[3]).split(";"):
+                k, c, x, y, _ = part.split(",")
+                parts.append("%s %s.%s -> %s" % (k, lib_u(c), lib_u(x), lib_u(y)))
+            return "%s prog %s: ONE request [%s] (%s)" % (h[0], h[1], "; ".join(parts), h[6])
         return "%s prog %s: %s %s.%s -> %s (%s)" % (h[0], h[1], h[2], lib_u(h[3]), lib_u(h[4]), lib_u(h[5]), h[6])
 
     progs = {}
@@ -144,7 +150,7 @@ def check(ctx, args):
         "evaluations": len(case_lines) - nprog,
         "programs": nprog,
         "distinct_nontrivial": lib.distinct_count(cases, lambda l: not l.startswith("P ")),
-        "rule": "random compiling MRO file sets (layouts: one file / main+stages / main+pipes+stages; 3-4 stages with 1-3 typed ins/outs from a small name pool so that names collide across callables and between ins and outs; user file type, struct Pair with projections, stage retains, split stages; 2-3 nested pipelines with 2-4 calls each: aliases, the same callable twice, mapped calls, wildcard from self / from a call, disabled bound to self / call outputs, local/volatile, array / struct / map literals containing references, pipeline retains) x EVERY edit: rename callable -> fresh and -> each alias in use; rename input/output -> fresh and -> a name of the other direction; remove input (stages); remove output; remove unused outputs / calls / both; round trip for fresh renames",
+        "rule": "random compiling MRO file sets (layouts: one file / main+stages / main+pipes+stages; 3-4 stages with 1-3 typed ins/outs from a small name pool so that names collide across callables and between ins and outs; user file type, struct Pair with projections, stage retains, split stages; 2-3 nested pipelines with 2-4 calls each: aliases, the same callable twice, mapped calls, wildcard from self / from a call, disabled bound to self / call outputs, local/volatile, array / struct / map literals containing references, pipeline retains) x EVERY edit: rename callable -> fresh and -> each alias in use; rename input/output -> fresh and -> a name of the other direction; remove input (stages); remove output; remove unused outputs / calls / both; round trip for fresh renames; COMBINED requests (one Refactor call, as mro edit allows): each callable rename (fresh / onto an alias in use) + rename-output / rename-input / both / remove-input / remove-output / remove-unused-calls / remove-unused (both) / rename-output + remove-unused, input + output rename of one callable, output rename + remove-unused, two callable renames (the second onto the old name of the first), validated against the composed reference (check_combo)",
         "edit_kinds": kinds,
         "oracle_ok": n_ok, "oracle_fail": n_fail, "oracle_skip_outside_property": n_skip,
         "oracle_fail_classes": classes,
